@@ -44,6 +44,8 @@ type detCase struct {
 	sig  string
 	// libs are written next to the inputs but not named on the command line (reached through references)
 	libs []*sg.SchemaFile
+	// pre are libs that ARE named on the command line, before the file set
+	pre []string
 }
 
 func (c *detCase) files(perm *sg.Rng) []batch.File {
@@ -66,6 +68,7 @@ func (c *detCase) files(perm *sg.Rng) []batch.File {
 
 func (c *detCase) args() []string {
 	a := append([]string{"-p", "detpkg"}, c.opts...)
+	a = append(a, c.pre...)
 	for _, f := range c.fs.Files {
 		a = append(a, f.Path)
 	}
@@ -195,6 +198,25 @@ func c12(ctx *Ctx) (*Outcome, error) {
 				c.opts = append(c.opts, "--resolve-extension", e)
 			}
 			c.sig += " ambiguous-extensionless-ref"
+		}
+		if i%7 == 4 {
+			// a remote reference (nothing listens there: the fetch fails at once) whose URL is the $id of several
+			// local copies that were loaded before it, all different: whatever the tool answers the reference with,
+			// it is the same in every process
+			const url = "http://127.0.0.1:1/shared/types.json"
+			first := fs.Files[0]
+			dir := filepath.Dir(first.Path)
+			for k := 0; k < 4; k++ {
+				m := &sg.Schema{ID: url, Types: []string{"object"}, Props: []sg.Prop{{Name: fmt.Sprintf("mirror%d", k), S: &sg.Schema{Types: []string{"string"}}}},
+					Defs: []sg.Prop{{Name: "Shared", S: &sg.Schema{Types: []string{"object"}, Props: []sg.Prop{{Name: fmt.Sprintf("rev%d", k), S: &sg.Schema{Types: []string{"integer"}}}}}}}}
+				lf := &sg.SchemaFile{Name: fmt.Sprintf("mirror%d", k), Path: filepath.Join(dir, fmt.Sprintf("mirror%d.json", k)), Root: m}
+				c.libs = append(c.libs, lf)
+				c.pre = append(c.pre, lf.Path)
+			}
+			if len(first.Root.Types) == 1 && first.Root.Types[0] == "object" {
+				first.Root.Props = append(first.Root.Props, sg.Prop{Name: "remote", S: &sg.Schema{Ref: url + "#/$defs/Shared", Target: c.libs[len(c.libs)-1].Root.Defs[0].S}})
+			}
+			c.sig += " remote-ref-equals-id-of-loaded-copies"
 		}
 		if !hasOutputMapping(c.opts) {
 			c.opts = append(c.opts, "-o", "gen/out.go")
